@@ -12,6 +12,7 @@ import (
 	"fmt"
 	"os"
 	"reflect"
+	"time"
 
 	"go.1password.io/spg"
 )
@@ -59,7 +60,7 @@ func stripVolatile(evs []interface{}) string {
 	return string(out)
 }
 
-func runCharHist(em *Emitter, hid int, h Hist, seed int64) {
+func runCharHist(em *Emitter, hid int, h Hist, seed int64) (hung bool) {
 	objs := make([]spg.CharRecipe, len(h.Objs))
 	for i := range h.Objs {
 		h.Objs[i].norm()
@@ -72,6 +73,9 @@ func runCharHist(em *Emitter, hid int, h Hist, seed int64) {
 		}
 		r := &objs[st.Obj]
 		switch st.Op {
+		case "fault": // the random source fails during one Generate call (at read Idx, after Ival bytes); the caller recovers the panic
+			failingCall(func() { r.Generate() }, seed+int64(si), st.Idx, st.Ival)
+			processFaulted = true
 		case "set":
 			switch st.Field {
 			case "len":
@@ -108,34 +112,67 @@ func runCharHist(em *Emitter, hid int, h Hist, seed int64) {
 			}
 		case "call":
 			call++
-			snaps := make([]CharSpec, len(objs))
-			for i := range objs {
-				snaps[i] = CharSpecOf(objs[i])
-			}
-			spec := snaps[st.Obj]
-			sc := Scenario{Kind: "char", Char: &spec, MaxTrials: h.MaxTrials, FailRateOne: h.FailRateOne, Mode: "paths", Paths: st.Paths,
-				Tag: fmt.Sprintf("%s#%d.%d", h.Tag, hid, si)}
-			s := seed*1000003 + int64(hid)*1009 + int64(si)
-			evs := charCellEvents(hid*1000+si, sc, s, r)
-			fresh := spec.Recipe()
-			spec2 := spec
-			sc2 := sc
-			sc2.Char = &spec2
-			evs2 := charCellEvents(hid*1000+si, sc2, s, &fresh)
-			cell := evs[0].(*CellEv)
-			if stripVolatile(evs) != stripVolatile(evs2) {
-				cell.TwinDiff = 1
-			}
-			for i := range objs {
-				if !reflect.DeepEqual(snaps[i], CharSpecOf(objs[i])) {
-					cell.Mutated = 1
+			si, st := si, st
+			if !afterFault(processFaulted, func() {
+				snaps := make([]CharSpec, len(objs))
+				for i := range objs {
+					snaps[i] = CharSpecOf(objs[i])
 				}
-			}
-			for _, ev := range evs {
-				em.Emit(ev)
+				spec := snaps[st.Obj]
+				sc := Scenario{Kind: "char", Char: &spec, MaxTrials: h.MaxTrials, FailRateOne: h.FailRateOne, Mode: "paths", Paths: st.Paths,
+					Tag: fmt.Sprintf("%s#%d.%d", h.Tag, hid, si)}
+				s := seed*1000003 + int64(hid)*1009 + int64(si)
+				evs := charCellEvents(hid*1000+si, sc, s, r)
+				fresh := spec.Recipe()
+				spec2 := spec
+				sc2 := sc
+				sc2.Char = &spec2
+				evs2 := charCellEvents(hid*1000+si, sc2, s, &fresh)
+				cell := evs[0].(*CellEv)
+				if stripVolatile(evs) != stripVolatile(evs2) {
+					cell.TwinDiff = 1
+				}
+				for i := range objs {
+					if !reflect.DeepEqual(snaps[i], CharSpecOf(objs[i])) {
+						cell.Mutated = 1
+					}
+				}
+				for _, ev := range evs {
+					em.Emit(ev)
+				}
+			}) {
+				em.Emit(map[string]interface{}{"op": "hang", "id": hid*1000 + si, "tag": fmt.Sprintf("%s#%d.%d", h.Tag, hid, si)})
+				return true
 			}
 		}
 	}
+	return false
+}
+
+// failingCall runs one library call on a random source that fails at read `at` (1-based) after `got` bytes; the panic is recovered.
+func failingCall(f func(), seed int64, at, got int) {
+	e := NewEnum(seed)
+	e.Policy = func(j int, n uint32) uint32 { return uint32(e.Rng.Int63n(int64(n))) }
+	if at < 1 {
+		at = 1
+	}
+	e.FailAtRead, e.FailGot = at, got
+	e.Run(nil, f)
+}
+
+// afterFault runs a step; once an earlier call of the history has failed, it runs under a deadline: the calls of a history take
+// milliseconds, so a call that has not returned after hangDeadline never will (e.g. a lock left held by the failed call).
+const hangDeadline = 45 * time.Second
+
+// whatever a failed call may have left behind is process-wide: every later call of this process runs under the deadline
+var processFaulted bool
+
+func afterFault(faulted bool, f func()) bool {
+	if !faulted {
+		f()
+		return true
+	}
+	return withDeadline(f, hangDeadline)
 }
 
 func applyWL(r *spg.WLRecipe, st HStep) {
@@ -160,7 +197,7 @@ func applyWL(r *spg.WLRecipe, st HStep) {
 	}
 }
 
-func runWLHist(em *Emitter, hid int, h Hist, seed int64) {
+func runWLHist(em *Emitter, hid int, h Hist, seed int64) (hung bool) {
 	wl, err := spg.NewWordList(FromCPsList(h.Words))
 	if err != nil {
 		return
@@ -182,6 +219,9 @@ func runWLHist(em *Emitter, hid int, h Hist, seed int64) {
 			continue
 		}
 		switch st.Op {
+		case "fault":
+			failingCall(func() { objs[st.Obj].Generate() }, seed+int64(si), st.Idx, st.Ival)
+			processFaulted = true
 		case "set":
 			applyWL(objs[st.Obj], st)
 			sp := &specs[st.Obj]
@@ -200,26 +240,33 @@ func runWLHist(em *Emitter, hid int, h Hist, seed int64) {
 				sp.SepRecipe = st.SepRecipe
 			}
 		case "call":
-			spec := specs[st.Obj]
-			sc := Scenario{Kind: "wl", WL: &spec, MaxTrials: h.MaxTrials, FailRateOne: h.FailRateOne, Mode: "paths", Paths: st.Paths,
-				Tag: fmt.Sprintf("%s#%d.%d", h.Tag, hid, si)}
-			s := seed*1000003 + int64(hid)*1009 + int64(si)
-			evs := wlCellEvents(hid*1000+si, sc, s, objs[st.Obj], wl)
-			spec2 := spec
-			sc2 := sc
-			sc2.WL = &spec2
-			// the twin is a fresh recipe on the SAME list object (a new list would order its words differently)
-			fresh, _, _ := spec2.Build(wl)
-			evs2 := wlCellEvents(hid*1000+si, sc2, s, &fresh, wl)
-			cell := evs[0].(*WCellEv)
-			if stripVolatile(evs) != stripVolatile(evs2) {
-				cell.TwinDiff = 1
-			}
-			for _, ev := range evs {
-				em.Emit(ev)
+			si, st := si, st
+			if !afterFault(processFaulted, func() {
+				spec := specs[st.Obj]
+				sc := Scenario{Kind: "wl", WL: &spec, MaxTrials: h.MaxTrials, FailRateOne: h.FailRateOne, Mode: "paths", Paths: st.Paths,
+					Tag: fmt.Sprintf("%s#%d.%d", h.Tag, hid, si)}
+				s := seed*1000003 + int64(hid)*1009 + int64(si)
+				evs := wlCellEvents(hid*1000+si, sc, s, objs[st.Obj], wl)
+				spec2 := spec
+				sc2 := sc
+				sc2.WL = &spec2
+				// the twin is a fresh recipe on the SAME list object (a new list would order its words differently)
+				fresh, _, _ := spec2.Build(wl)
+				evs2 := wlCellEvents(hid*1000+si, sc2, s, &fresh, wl)
+				cell := evs[0].(*WCellEv)
+				if stripVolatile(evs) != stripVolatile(evs2) {
+					cell.TwinDiff = 1
+				}
+				for _, ev := range evs {
+					em.Emit(ev)
+				}
+			}) {
+				em.Emit(map[string]interface{}{"op": "hang", "id": hid*1000 + si, "tag": fmt.Sprintf("%s#%d.%d", h.Tag, hid, si)})
+				return true
 			}
 		}
 	}
+	return false
 }
 
 func cmdHist(args []string) {
@@ -250,10 +297,18 @@ func cmdHist(args []string) {
 			fatal("history: %v", err)
 		}
 		restore := setEnv(h.MaxTrials, h.FailRateOne)
+		hung := false
 		if h.Kind == "chist" {
-			runCharHist(emc, i, h, *seed)
+			hung = runCharHist(emc, i, h, *seed)
 		} else {
-			runWLHist(emw, i, h, *seed)
+			hung = runWLHist(emw, i, h, *seed)
+		}
+		if hung {
+			// a library call is stuck for good (its goroutine still exists): nothing further can be trusted in this process
+			emc.Close()
+			emw.Close()
+			fmt.Printf("{\"cevents\":%d,\"wevents\":%d,\"hung\":1}\n", emc.N, emw.N)
+			os.Exit(0)
 		}
 		restore()
 	}
